@@ -4,7 +4,7 @@ T="${1:-quick}"; export VERIF_SEED="${2:-0}"
 cd /verif
 for i in $(seq -w 1 20); do
   P="C$i"; s=$(date +%s)
-  out=$(timeout 3000 ./check $P --tier $T 2>&1); rc=$?
+  out=$(timeout 5400 ./check $P --tier $T 2>&1); rc=$?
   e=$(( $(date +%s) - s ))
   echo "$P tier=$T seed=$VERIF_SEED rc=$rc ${e}s $(echo "$out" | grep -c '^VIOLATION') violations $(echo "$out" | grep -c '^KNOWN-FINDING') known $(echo "$out" | grep HARNESS | head -1 | cut -c1-120)"
 done
